@@ -1436,6 +1436,67 @@ GEN(int) @C(x any) {
 	RETURN
 }`, Drives: []Drive{gen("int", "@A", "1"), gen("int", "@A", "2"), gen("int", "@B", "1"), gen("int", "@B", "2"), gen("int", "@C", "3")}},
 
+	{Name: "IfInitialiserShadows", Props: []string{"C03", "C01", "C05"}, Src: `
+// an if statement WITH an initialiser and a yielding body, without else / with else / as else-if: the initialiser
+// declares a name that shadows an outer one, so losing it would still build
+type @node struct { v int; next *@node }
+func @List(k int) *@node { var l *@node; for ; k > 0; k-- { l = &@node{k, l} }; return l }
+GEN(int) @Walk(n *@node) {
+	YIELD(n.v)
+	if n := n.next; n != nil { YIELDFROM(GENCALL(int, @Walk, n)) }
+	RETURN
+}
+GEN(int) @G(k int) {
+	x := 100
+	if x := k * 2; x > 2 { YIELD(x) }
+	if x := k + 1; x > 100 { YIELD(-1) } else { YIELD(x) }
+	if k < 0 { YIELD(-2) } else if x := k * 3; x > 0 { YIELD(x) }
+	YIELD(x)
+	RETURN
+}`, Drives: []Drive{gen("int", "@Walk", "@List(3)"), gen("int", "@G", "2"), gen("int", "@G", "1")}},
+
+	{Name: "YieldExplicitTypeConverts", Props: []string{"C01", "C11", "C02"}, Src: `
+// the explicit type argument of Yield gives an untyped constant (or nil) its type
+type @color int
+func (c @color) String() string { if c == 1 { return "green" }; return "other" }
+type @stringer interface{ String() string }
+GEN(any) @Anys() {
+	YIELDT(float64, 1)
+	YIELDT(int64, 2)
+	YIELDT(*int, nil)
+	YIELDT(any, 3)
+	RETURN
+}
+GEN(@stringer) @Named() {
+	YIELDT(@color, 1)
+	YIELDT(@stringer, @color(2))
+	RETURN
+}
+func @Kinds() string {
+	out := ""
+	RANGEITER(v, :=, GENCALL(any, @Anys)) { out += vm.TypeName(v) + " " }
+	RANGEITER(s, :=, GENCALL(@stringer, @Named)) { out += s.String() + " " }
+	return out
+}`, Drives: []Drive{fn("string", "@Kinds", "")}},
+
+	{Name: "DeferInNativeRange", Props: []string{"C12"}, MayReject: true, Src: `
+// a defer inside a range statement that the rewriter leaves native (no yield in it) is a defer of the generator
+func @sum[S ~[]int](xs S) int { t := 0; for _, x := range xs { t += x }; return t }
+GEN(int) @G(xs []int) {
+	YIELD(1)
+	for _, x := range xs { defer vm.E("deferred", x) }
+	YIELD(2)
+	RETURN
+}`, Drives: []Drive{gen("int", "@G", "[]int{7, 8}")}},
+
+	{Name: "DeferInNativeRangePointerToArray", Props: []string{"C12"}, MayReject: true, Src: `
+GEN(int) @G(p *[2]int) {
+	YIELD(1)
+	for _, x := range p { defer vm.E("deferred", x) }
+	YIELD(2)
+	RETURN
+}`, Drives: []Drive{gen("int", "@G", "&[2]int{7, 8}")}},
+
 	{Name: "TypeSwitchScopes", Props: []string{"C03", "C01"}, Src: `
 GEN(int) @G(vs []any) {
 	for _, v := range vs {
@@ -2137,6 +2198,71 @@ func @Sum(n int) int {
 	RANGEITER(v, :=, GENCALL(int, @Nums, n)) { s += v }
 	return s
 }`, Drives: []Drive{fn("int", "@Sum", "4")}},
+
+	{Name: "ElementTypeNameShadowed", Props: []string{"C11", "C01"}, Finding: "D33", Src: `
+// a parameter / local variable named like the element type of the generator
+type @tree struct { v int; l, r *@tree }
+GEN(*@tree) @Walk(@tree *@tree) {
+	if @tree == nil { RETURN }
+	YIELDFROM(GENCALL(*@tree, @Walk, @tree.l))
+	YIELD(@tree)
+	YIELDFROM(GENCALL(*@tree, @Walk, @tree.r))
+	RETURN
+}
+func @Sum() int {
+	t := 0
+	RANGEITER(n, :=, GENCALL(*@tree, @Walk, &@tree{2, &@tree{1, nil, nil}, &@tree{3, nil, nil}})) { t = 10*t + n.v }
+	return t
+}`, Drives: []Drive{fn("int", "@Sum", "")}},
+
+	{Name: "RangeIntegerAssignToTypedVariable", Props: []string{"C11", "C04"}, Finding: "D34", Src: `
+// 'for i = range 3' with i declared as uint8: the untyped constant takes the type of the variable
+GEN(int) @G() {
+	var i uint8
+	for i = range 3 { YIELD(int(i) + 250) }
+	var j int64
+	for j = range 2 { YIELD(int(j)) }
+	RETURN
+}`, Drives: []Drive{gen("int", "@G", "")}},
+
+	{Name: "ArrayRangeOperandNotEvaluated", Props: []string{"C04", "C18"}, Finding: "D35", Src: `
+// with at most one iteration variable and a constant length the array operand is NOT evaluated (Go spec)
+type @holder struct{ a [2]int }
+GEN(int) @G() {
+	var p *[3]int
+	for i := range *p { YIELD(i) }
+	var h *@holder
+	for range h.a { YIELD(9) }
+	RETURN
+}`, Drives: []Drive{gen("int", "@G", "")}},
+
+	{Name: "LabelledRangeInOrdinaryClosure", Props: []string{"C12", "C11", "C13"}, Finding: "D36", Src: `
+// an ordinary closure inside a generator: its range loops are none of the rewriter's business
+GEN(int) @G(rows [][]int) {
+	count := func() int {
+		n := 0
+	outer:
+		for _, r := range rows {
+			for _, v := range r {
+				if v < 0 { continue outer }
+				n++
+			}
+		}
+		return n
+	}
+	YIELD(count())
+	RETURN
+}`, Drives: []Drive{gen("int", "@G", "[][]int{{1, 2}, {3, -1, 4}}")}},
+
+	{Name: "NativeLoopVariablePerIteration", Props: []string{"C03", "C13"}, Finding: "D17", Src: `
+// a three-clause loop WITHOUT a yield in a generator body: its := initialiser is hoisted all the same, so under
+// go >= 1.22 the closures share one variable
+GEN(int) @G(n int) {
+	var fs []func() int
+	for i := 0; i < n; i++ { fs = append(fs, func() int { return i }) }
+	for _, f := range fs { YIELD(f()) }
+	RETURN
+}`, Drives: []Drive{gen("int", "@G", "3")}},
 
 	{Name: "PartialRedeclarationAcrossYield", Props: []string{"C03", "C01"}, Finding: "D30", Src: `
 // 'b, err := ...' after a yield: err was declared earlier in the SAME block, so := assigns to it (only b is new)
